@@ -325,6 +325,12 @@ def lookupRecs (f : List Value → Option (List Rec)) : List Rec → Option (Lis
       some (R.map (fun r => { vals := l.vals ++ r.vals, retr := l.retr != r.retr, et := l.et }) ++ rest)
     | _, _ => none
 
+/-- every record has the width of the schema of the node that produced it. In Go this cannot fail (records are
+    built from the schema: `make([]octosql.Value, len(left)+len(right))`, one value per Map expression, …); the
+    model checks it where a join node relies on it (the NULL-padding width, the position of the right input's
+    columns) and treats a violation like a panic. -/
+def widthsOK (n : Nat) (L : List Rec) : Bool := L.all fun r => r.vals.length == n
+
 /-- run a plan; `none` = a runtime error or a panic -/
 def denote (sch : Sched) (db : Db) : Plan → List Value → Option (List Rec)
   | .scan i, _ => some ((tableRows db i).map mkRec)
@@ -339,24 +345,27 @@ def denote (sch : Sched) (db : Db) : Plan → List Value → Option (List Rec)
   | .streamJoin kl kr l r, ctx =>
     match denote sch db l ctx, denote sch db r ctx with
     | some L, some R =>
-      match augment kl ctx L, augment kr ctx R with
-      | some L', some R' =>
-        let nL := l.width db
-        let nR := r.width db
-        let k := kl.length
-        joinNode sch (cfgInner (keyIdx nL k) (keyIdx nR k)) nL k nR L' R'
-      | _, _ => none
+      let nL := l.width db
+      let nR := r.width db
+      let k := kl.length
+      if widthsOK nL L && widthsOK nR R then
+        match augment kl ctx L, augment kr ctx R with
+        | some L', some R' => joinNode sch (cfgInner (keyIdx nL k) (keyIdx nR k)) nL k nR L' R'
+        | _, _ => none
+      else none
     | _, _ => none
   | .outerJoin isL isR kl kr l r, ctx =>
     match denote sch db l ctx, denote sch db r ctx with
     | some L, some R =>
-      match augment kl ctx L, augment kr ctx R with
-      | some L', some R' =>
-        let nL := l.width db
-        let nR := r.width db
-        let k := kl.length
-        joinNode sch (cfgOuter isL isR (nL + k) (nR + k) (keyIdx nL k) (keyIdx nR k)) nL k nR L' R'
-      | _, _ => none
+      let nL := l.width db
+      let nR := r.width db
+      let k := kl.length
+      if widthsOK nL L && widthsOK nR R then
+        match augment kl ctx L, augment kr ctx R with
+        | some L', some R' =>
+          joinNode sch (cfgOuter isL isR (nL + k) (nR + k) (keyIdx nL k) (keyIdx nR k)) nL k nR L' R'
+        | _, _ => none
+      else none
     | _, _ => none
   | .lookupJoin s j, ctx =>
     match denote sch db s ctx with
